@@ -341,7 +341,10 @@ fn judge(case_seed: u64, h: &History, c: &mut Collector) {
                 fail("drop", "wrong panic".into());
             } else if entries > 0 {
                 let ns = numbers_in(m);
-                if !ns.contains(&entries) && !ns.contains(&leaves) {
+                // "errors" throughout the statement are the *recorded* errors (a recorded bundle is one of
+                // them), so that is the number the message has to state
+                let _ = leaves;
+                if !ns.contains(&entries) {
                     fail("drop-count", format!("drop panic message {m:?} does not state that {entries} errors were lost"));
                 }
             }
